@@ -162,7 +162,75 @@ func execC17(c c17Case) (res core.Result) {
 		res.Violation = v
 		return res
 	}
-	// 4. level-9 snapshot and 5. compaction of the above
+	// restore: same length, every page equal except the lock page, which is empty
+	out := filepath.Join(w.Dir, "restored.db")
+	compareRestore := func(label string) *core.Result {
+		dbb, err := w.ReadDB()
+		if err != nil {
+			panic(err)
+		}
+		wal := w.ReadWAL()
+		d := refwal.Decode(wal)
+		ref := dbb
+		if d.HeaderOK {
+			v := d.ViewFrom(0, 0)
+			if v.Commit > 0 {
+				need := int(v.Commit) * c.PS
+				if len(ref) < need {
+					ref = append(ref, make([]byte, need-len(ref))...)
+				}
+				for pg, off := range v.Pages {
+					copy(ref[(int(pg)-1)*c.PS:int(pg)*c.PS], wal[off+24:off+24+int64(c.PS)])
+				}
+				ref = ref[:need]
+			}
+		}
+		_ = os.Remove(out)
+		if err := lsw.RestoreTo(ctx, w.ReplicaDir, out, 0, lsw.ZeroTime); err != nil {
+			r := fail("restore-failed", "%s: restore: %v", label, err)
+			return &r
+		}
+		rb, err := os.ReadFile(out)
+		if err != nil {
+			panic(err)
+		}
+		res.Evals++
+		if len(rb) != len(ref) {
+			r := fail("restore-size", "%s: restored %d pages, source %d pages", label, len(rb)/c.PS, len(ref)/c.PS)
+			return &r
+		}
+		var seqPage int64
+		_ = w.LedgerDB().QueryRow(`SELECT rootpage FROM sqlite_master WHERE name='_litestream_seq'`).Scan(&seqPage)
+		zero := make([]byte, c.PS)
+		for pg := int64(1); pg*int64(c.PS) <= int64(len(rb)); pg++ {
+			a := rb[(pg-1)*int64(c.PS) : pg*int64(c.PS)]
+			b := ref[(pg-1)*int64(c.PS) : pg*int64(c.PS)]
+			if pg == lock {
+				if !bytes.Equal(a, zero) {
+					r := fail("lock-page-not-empty", "%s: restored lock page %d is not empty", label, lock)
+					return &r
+				}
+				continue
+			}
+			if pg == seqPage {
+				continue
+			}
+			if !bytes.Equal(a, b) {
+				r := fail("restore-page", "%s: restored page %d differs from the source", label, pg)
+				return &r
+			}
+		}
+		return nil
+	}
+	if r := compareRestore("restore through level 0 only"); r != nil {
+		return *r
+	}
+	// 4. level-9 snapshot (after a checkpoint, so that the pages around the boundary are read from the database file,
+	//    not from the WAL) and 5. compaction of the above
+	if v := step("checkpoint", lsw.Op{K: "lsckpt", M: "TRUNCATE"}); v != nil {
+		res.Violation = v
+		return res
+	}
 	if v := step("snapshot", lsw.Op{K: "snapshot"}); v != nil {
 		res.Violation = v
 		return res
@@ -185,63 +253,10 @@ func execC17(c c17Case) (res core.Result) {
 			return fail("lock-page-replicated", "L%d %d-%d contains the lock page %d", f.Level, f.Min, f.Max, lock)
 		}
 	}
-	// restore: same length, every page equal except the lock page, which is empty
-	dbb, err := w.ReadDB()
-	if err != nil {
-		panic(err)
-	}
-	wal := w.ReadWAL()
-	d := refwal.Decode(wal)
-	ref := dbb
-	if d.HeaderOK {
-		v := d.ViewFrom(0, 0)
-		if v.Commit > 0 {
-			need := int(v.Commit) * c.PS
-			if len(ref) < need {
-				ref = append(ref, make([]byte, need-len(ref))...)
-			}
-			for pg, off := range v.Pages {
-				copy(ref[(int(pg)-1)*c.PS:int(pg)*c.PS], wal[off+24:off+24+int64(c.PS)])
-			}
-			ref = ref[:need]
-		}
+	if r := compareRestore("restore through the snapshot"); r != nil {
+		return *r
 	}
 	_ = w.Detach()
-	out := filepath.Join(w.Dir, "restored.db")
-	if err := lsw.RestoreTo(ctx, w.ReplicaDir, out, 0, lsw.ZeroTime); err != nil {
-		return fail("restore-failed", "restore: %v", err)
-	}
-	rb, err := os.ReadFile(out)
-	if err != nil {
-		panic(err)
-	}
-	res.Evals++
-	if len(rb) != len(ref) {
-		return fail("restore-size", "restored %d pages, source %d pages", len(rb)/c.PS, len(ref)/c.PS)
-	}
-	seqRoot, _ := w.LedgerDB().Query(`SELECT 1`) // keep the ledger connection alive until here
-	if seqRoot != nil {
-		seqRoot.Close()
-	}
-	var seqPage int64
-	_ = w.LedgerDB().QueryRow(`SELECT rootpage FROM sqlite_master WHERE name='_litestream_seq'`).Scan(&seqPage)
-	zero := make([]byte, c.PS)
-	for pg := int64(1); pg*int64(c.PS) <= int64(len(rb)); pg++ {
-		a := rb[(pg-1)*int64(c.PS) : pg*int64(c.PS)]
-		b := ref[(pg-1)*int64(c.PS) : pg*int64(c.PS)]
-		if pg == lock {
-			if !bytes.Equal(a, zero) {
-				return fail("lock-page-not-empty", "restored lock page %d is not empty", lock)
-			}
-			continue
-		}
-		if pg == seqPage {
-			continue
-		}
-		if !bytes.Equal(a, b) {
-			return fail("restore-page", "restored page %d differs from the source", pg)
-		}
-	}
 	if core.Thorough() {
 		rdb, err := sql.Open("sqlite", fmt.Sprintf("file:%s?_pragma=busy_timeout(1000)", out))
 		if err == nil {
@@ -297,6 +312,9 @@ func TestGrid_C17(t *testing.T) {
 				c = c17Case{PS: 4096, Start: -3, Grow: 50}
 			case 1:
 				c = c17Case{PS: 65536, Start: -1, Grow: 3}
+			case 2:
+				// a database that is already beyond the lock page when litestream first sees it
+				c = c17Case{PS: pss[seed%len(pss)], Start: []int{1, 2, 30}[(seed/4)%3], Grow: c17Grows[(seed/12)%3]}
 			}
 		}
 		if !core.RunOne(t, "C17", c, execC17) {
